@@ -210,6 +210,7 @@ package jmespath
 //@   assigns Lexer.expression, Lexer.currentPos, Lexer.lastWidth, Lexer.buf
 //@   ensures [expression-recorded] lexer.expression == expression
 //@   ensures {C17} [error-location] isSyntaxError(err) ==> err.Expression == expression && 0 <= err.Offset && err.Offset <= len(expression)
+//@   ensures {C04} [no-eof-token-on-failure] err != nil ==> tokensOK(result, len(result), len(expression))
 //@   ensures {C05,C17} [tokens-well-formed] err == nil ==> len(result) >= 1 && result[len(result)-1].tokenType == tEOF && result[len(result)-1].position == len(expression) && tokensOK(result, len(result)-1, len(expression))
 //@   ensures {C13} [buffer-left-empty] err == nil ==> lexer.buf == ""
 //@   loop 1 invariant lexOK(lexer) && lexer.expression == expression && lexer.buf == "" && tokensOK(tokens, len(tokens), len(expression))
@@ -235,11 +236,13 @@ package jmespath
 
 //@ define wfToks(p) = len(p.tokens) >= 1 && p.tokens[len(p.tokens)-1].tokenType == tEOF && 0 <= p.tokens[len(p.tokens)-1].position && p.tokens[len(p.tokens)-1].position <= len(p.expression) && tokensOK(p.tokens, len(p.tokens)-1, len(p.expression))
 //@ define PI(p) = wfToks(p) && 0 <= p.index && p.index < len(p.tokens)
+//@ define parsesAs(p, err, result, spec) = ((err == nil) <==> thd(spec)) && (err == nil ==> same(result, fst(spec)) && p.index == snd(spec))
 //@ define parseErrOK(p, err) = (isSyntaxError(err) ==> err.Expression == p.expression && 0 <= err.Offset && err.Offset <= len(p.expression))
 
 //@ func tokensOneOf
 //@   props C05
 //@   ensures [membership] result <==> (exists j int :: 0 <= j && j < len(elements) && elements[j] == token)
+//@   ensures [membership-of-three] len(elements) == 3 ==> (result <==> (elements[0] == token || elements[1] == token || elements[2] == token))
 //@   assigns \nothing
 //@   loop 1 invariant 0 <= \k && \k <= len(elements) && (forall j int :: 0 <= j && j < \k ==> elements[j] != token)
 //@   loop 1 decreases len(elements) - \k
@@ -261,9 +264,13 @@ package jmespath
 //@   ensures [cursor-on-error] p.index >= old(p.index)
 //@   ensures {C04,C05} [well-formed-ast] err == nil ==> wfNode(result)
 //@   ensures {C04} [never-an-empty-node] err == nil ==> result.nodeType != ASTEmpty
+//@   ensures {C03,C04,C08} [parses-as-grammar] parsesAs(p, err, result, specSlice(p.tokens, old(p.index)))
 //@   ensures {C17} [error-location] parseErrOK(p, err)
 //@   ensures {C08} [slice-node] err == nil ==> result.nodeType == ASTSlice && isIntPtrs(result.value) && nkids(result) == 0
-//@   loop 1 invariant PI(p) && 0 <= index && index <= 3 && p.index >= old(p.index) && current == p.tokens[p.index].tokenType
+//@   loop 1 invariant [cursor] PI(p) && p.index >= old(p.index) && current == p.tokens[p.index].tokenType
+//@   loop 1 invariant [slot] 0 <= index && index <= 2
+//@   loop 1 invariant [three-parts] len(parts) == 3
+//@   loop 1 invariant {C03,C04,C08} [slice-continuation] same(specSliceFrom(p.tokens, p.index, index, parts), specSlice(p.tokens, old(p.index)))
 //@   loop 1 decreases len(p.tokens) - p.index
 
 //@ func (*Parser).parseIndexExpression
@@ -274,6 +281,7 @@ package jmespath
 //@   ensures [cursor-on-error] p.index >= old(p.index)
 //@   ensures {C04,C05} [well-formed-ast] err == nil ==> wfNode(result)
 //@   ensures {C04} [never-an-empty-node] err == nil ==> result.nodeType != ASTEmpty
+//@   ensures {C03,C04,C08} [parses-as-grammar] parsesAs(p, err, result, specIndexOrSlice(p.tokens, old(p.index)))
 //@   ensures {C17} [error-location] parseErrOK(p, err)
 //@   ensures [node] err == nil ==> (result.nodeType == ASTSlice && isIntPtrs(result.value) || result.nodeType == ASTIndex && isInt(result.value)) && nkids(result) == 0
 
@@ -287,8 +295,10 @@ package jmespath
 //@   ensures [cursor] err == nil ==> PI(p) && p.index > old(p.index)
 //@   ensures {C04,C05} [well-formed-ast] err == nil ==> wfNode(result)
 //@   ensures {C04} [never-an-empty-node] err == nil ==> result.nodeType != ASTEmpty
+//@   ensures {C03,C04} [parses-as-grammar] parsesAs(p, err, result, specExpr(p.tokens, old(p.index), bindingPower))
 //@   ensures {C17} [error-location] parseErrOK(p, err)
 //@   loop 1 invariant PI(p) && p.index > old(p.index) && currentToken == p.tokens[p.index].tokenType && leftNode.nodeType != ASTEmpty && wfNode(leftNode) && p.index >= 1 + old(p.index)
+//@   loop 1 invariant {C03,C04} [pratt-loop] same(specLoop(p.tokens, p.index, bindingPower, leftNode), specExpr(p.tokens, old(p.index), bindingPower))
 //@   loop 1 decreases len(p.tokens) - p.index
 
 //@ func (*Parser).nud
@@ -300,6 +310,7 @@ package jmespath
 //@   ensures [cursor] err == nil ==> PI(p) && p.index >= old(p.index)
 //@   ensures {C04,C05} [well-formed-ast] err == nil ==> wfNode(result)
 //@   ensures {C04} [never-an-empty-node] err == nil ==> result.nodeType != ASTEmpty
+//@   ensures {C03,C04} [parses-as-grammar] parsesAs(p, err, result, specNud(p.tokens, old(p.index) - 1))
 //@   ensures {C17} [error-location] parseErrOK(p, err)
 
 //@ func (*Parser).led
@@ -311,8 +322,10 @@ package jmespath
 //@   ensures [cursor] err == nil ==> PI(p) && p.index >= old(p.index)
 //@   ensures {C04,C05} [well-formed-ast] err == nil ==> wfNode(result)
 //@   ensures {C04} [never-an-empty-node] err == nil ==> result.nodeType != ASTEmpty
+//@   ensures {C03,C04} [parses-as-grammar] parsesAs(p, err, result, specLed(p.tokens, old(p.index) - 1, node))
 //@   ensures {C17} [error-location] parseErrOK(p, err)
 //@   loop 1 invariant PI(p) && p.index >= old(p.index) && (forall j int :: 0 <= j && j < len(args) ==> wfArg(args[j]))
+//@   loop 1 invariant {C03,C04} [args-continuation] (p.index == old(p.index) && same(args, nilNodes())) || (p.tokens[p.index].tokenType != tRparen && p.tokens[old(p.index)].tokenType != tRparen && same(specArgs(p.tokens, p.index, args), specArgs(p.tokens, old(p.index), nilNodes())))
 //@   loop 1 decreases len(p.tokens) - p.index
 
 //@ func (*Parser).parseFunctionArg
@@ -323,6 +336,7 @@ package jmespath
 //@   decreases 1
 //@   ensures [cursor] err == nil ==> PI(p) && p.index > old(p.index)
 //@   ensures {C04,C05} [well-formed-argument] err == nil ==> wfArg(result)
+//@   ensures {C03,C04} [parses-as-grammar] parsesAs(p, err, result, specArg(p.tokens, old(p.index)))
 //@   ensures {C17} [error-location] parseErrOK(p, err)
 
 //@ func (*Parser).parseMultiSelectList
@@ -334,8 +348,10 @@ package jmespath
 //@   ensures [cursor] err == nil ==> PI(p) && p.index > old(p.index)
 //@   ensures {C04,C05} [well-formed-ast] err == nil ==> wfNode(result)
 //@   ensures {C04} [never-an-empty-node] err == nil ==> result.nodeType != ASTEmpty
+//@   ensures {C03,C04} [parses-as-grammar] parsesAs(p, err, result, specList(p.tokens, old(p.index), nilNodes()))
 //@   ensures {C17} [error-location] parseErrOK(p, err)
 //@   loop 1 invariant PI(p) && p.index >= old(p.index) && (forall j int :: 0 <= j && j < len(expressions) ==> wfNode(expressions[j]))
+//@   loop 1 invariant {C03,C04} [list-continuation] same(specList(p.tokens, p.index, expressions), specList(p.tokens, old(p.index), nilNodes()))
 //@   loop 1 decreases len(p.tokens) - p.index
 
 //@ func (*Parser).parseMultiSelectHash
@@ -347,8 +363,10 @@ package jmespath
 //@   ensures [cursor] err == nil ==> PI(p) && p.index > old(p.index)
 //@   ensures {C04,C05} [well-formed-ast] err == nil ==> wfNode(result)
 //@   ensures {C04} [never-an-empty-node] err == nil ==> result.nodeType != ASTEmpty
+//@   ensures {C03,C04} [parses-as-grammar] parsesAs(p, err, result, specHashFromTok(p.tokens, old(p.index), nilNodes()))
 //@   ensures {C17} [error-location] parseErrOK(p, err)
 //@   loop 1 invariant PI(p) && p.index >= old(p.index) && (forall j int :: 0 <= j && j < len(children) ==> wfNode(children[j]) && children[j].nodeType == ASTKeyValPair)
+//@   loop 1 invariant {C03,C04} [hash-continuation] same(specHashFromTok(p.tokens, p.index, children), specHashFromTok(p.tokens, old(p.index), nilNodes()))
 //@   loop 1 decreases len(p.tokens) - p.index
 
 //@ func (*Parser).projectIfSlice
@@ -360,6 +378,7 @@ package jmespath
 //@   ensures [cursor] err == nil ==> PI(p) && p.index >= old(p.index)
 //@   ensures {C04,C05} [well-formed-ast] err == nil ==> wfNode(result)
 //@   ensures {C04} [never-an-empty-node] err == nil ==> result.nodeType != ASTEmpty
+//@   ensures {C03,C04,C02} [parses-as-grammar] parsesAs(p, err, result, specProjectIfSlice(p.tokens, old(p.index), left, right))
 //@   ensures {C17} [error-location] parseErrOK(p, err)
 
 //@ func (*Parser).parseFilter
@@ -371,6 +390,7 @@ package jmespath
 //@   ensures [cursor] err == nil ==> PI(p) && p.index > old(p.index)
 //@   ensures {C04,C05} [well-formed-ast] err == nil ==> wfNode(result)
 //@   ensures {C04} [never-an-empty-node] err == nil ==> result.nodeType != ASTEmpty
+//@   ensures {C03,C04,C02} [parses-as-grammar] parsesAs(p, err, result, specFilter(p.tokens, old(p.index), node))
 //@   ensures {C17} [error-location] parseErrOK(p, err)
 
 //@ func (*Parser).parseDotRHS
@@ -382,6 +402,7 @@ package jmespath
 //@   ensures [cursor] err == nil ==> PI(p) && p.index > old(p.index)
 //@   ensures {C04,C05} [well-formed-ast] err == nil ==> wfNode(result)
 //@   ensures {C04} [never-an-empty-node] err == nil ==> result.nodeType != ASTEmpty
+//@   ensures {C03,C04} [parses-as-grammar] parsesAs(p, err, result, specDotRHS(p.tokens, old(p.index), bindingPower))
 //@   ensures {C17} [error-location] parseErrOK(p, err)
 
 //@ func (*Parser).parseProjectionRHS
@@ -394,11 +415,14 @@ package jmespath
 //@   ensures [cursor] err == nil ==> PI(p) && p.index >= old(p.index)
 //@   ensures {C04,C05} [well-formed-ast] err == nil ==> wfNode(result)
 //@   ensures {C04} [never-an-empty-node] err == nil ==> result.nodeType != ASTEmpty
+//@   ensures {C03,C04,C02} [parses-as-grammar] parsesAs(p, err, result, specProjRHS(p.tokens, old(p.index), bindingPower))
 //@   ensures {C17} [error-location] parseErrOK(p, err)
 
 //@ func (*Parser).Parse
 //@   props C05
 //@   assigns Parser.expression, Parser.index, Parser.tokens
+//@   ensures {C03,C04} [accepts-exactly-the-grammar] len(tokens) >= 1 && tokens[len(tokens)-1].tokenType == tEOF ==> ((err == nil) <==> snd(specParse(tokens)))
+//@   ensures {C03,C04} [builds-the-tree-the-grammar-assigns] err == nil ==> same(result, fst(specParse(tokens))) && same(p.tokens, tokens)
 //@   ensures {C04,C05} [well-formed-ast] err == nil ==> wfNode(result)
 //@   ensures {C04} [never-an-empty-node] err == nil ==> result.nodeType != ASTEmpty
 //@   ensures {C17} [error-location] isSyntaxError(err) ==> err.Expression == expression && 0 <= err.Offset && err.Offset <= len(expression)
@@ -862,3 +886,26 @@ package jmespath
 //@   requires pureTree(n) && 0 <= i && i < nkids(n)
 //@   ensures pureTree(kid(n, i))
 //@   trigger pureTree(kid(n, i))
+
+//@ lemma binding-powers-are-the-specified-precedences
+//@   props C03,C04,C02,C15
+//@   var t int
+//@   ensures bp(t) == specPower(t)
+//@   checkonly
+
+//@ lemma no-argument-starts-with-a-closing-parenthesis
+//@   props C03,C04
+//@   var toks Sl_S_token
+//@   var i int
+//@   requires specTokType(toks, i) == tRparen
+//@   ensures !thd(specArg(toks, i))
+//@   trigger specArg(toks, i)
+
+//@ lemma no-argument-list-continues-with-a-closing-parenthesis
+//@   props C03,C04
+//@   var toks Sl_S_token
+//@   var i int
+//@   var acc Sl_Node
+//@   requires specTokType(toks, i) == tRparen
+//@   ensures !thd(specArgs(toks, i, acc))
+//@   trigger specArgs(toks, i, acc)
